@@ -122,7 +122,8 @@ def render(stmts, plan, rng, fixed):
         for _ in range(d["blank"]):
             lines.append("")
         for c in d["comments"]:
-            lines.append((rng.choice("Cc*!dD") + c) if fixed else ("  !" + c))
+            # fixed form: flagged in column 1, or a `!` comment that starts in columns 2-5 or from column 7 on
+            lines.append(rng.choice([rng.choice("Cc*!dD") + c, rng.choice("Cc*!dD") + c, " " * rng.choice([1, 2, 4]) + "!" + c, "       !" + c]) if fixed else ("  !" + c))
         start.append(len(lines))
         if fixed:
             head = (lab or "").ljust(5) + " " + " " * rng.choice([0, 0, 1, 3])
